@@ -340,10 +340,37 @@ def mergeAttrs (outer inner : Attrs) : Attrs :=
 /-! ## collector templates and subscriptions -/
 
 mutual
+def valEq : AttrVal → AttrVal → Bool
+  | .s x, .s y => x == y
+  | .a xs, .a ys => valsEq xs ys
+  | _, _ => false
+def valsEq : List AttrVal → List AttrVal → Bool
+  | [], [] => true
+  | x :: xs, y :: ys => valEq x y && valsEq xs ys
+  | _, _ => false
+end
+
+/-- the elements of `run` occur in `list`, contiguously and in order -/
+def containsRun {α : Type} (eq : α → α → Bool) (list run : List α) : Bool :=
+  run.isEmpty || (List.range (list.length + 1 - run.length)).any fun i =>
+    let w := (list.drop i).take run.length
+    w.length == run.length && (w.zip run).all fun p => eq p.1 p.2
+
+/-- `mergeTemplateAttrs`: a template's attributes are merged in, except arrays whose elements
+    the target already lists in the same order (so that applying a template twice changes nothing) -/
+def mergeTemplate (dst t : Attrs) : Attrs :=
+  let tags := if !dst.tags.isEmpty && !t.tags.isEmpty && containsRun (· == ·) dst.tags t.tags then [] else t.tags
+  let kv := t.kv.filter fun p =>
+    match dst.kv.find? (fun q => q.1 == p.1), p.2 with
+    | some (_, .a have_), .a run => !containsRun valEq have_ run
+    | _, _ => true
+  mergeAttrs dst ⟨tags, kv⟩
+
+mutual
 /-- `applyAttributes`: every call to `tgt <- ep`, at any depth, receives the template's attributes -/
 def applyCall (self tgt : List String) (ep : String) (t : Attrs) : Stmt → Stmt
   | .call target e attrs =>
-    if (if target.isEmpty then self else target) == tgt && e == ep then .call target e (mergeAttrs attrs t)
+    if (if target.isEmpty then self else target) == tgt && e == ep then .call target e (mergeTemplate attrs t)
     else .call target e attrs
   | .cond test body => .cond test (applyCallList self tgt ep t body)
   | .group title body => .group title (applyCallList self tgt ep t body)
@@ -369,7 +396,7 @@ def applyTemplates (self : List String) (ts : List Template) (ss : List Stmt) : 
 /-- endpoint templates of the collector, in order, over the attributes of endpoint `name` -/
 def applyEpTemplates (ts : List Template) (name : String) (a : Attrs) : Attrs :=
   ts.foldl (fun a t => match t with
-    | .endpoint n attrs => if n == name then mergeAttrs a attrs else a
+    | .endpoint n attrs => if n == name then mergeTemplate a attrs else a
     | .call _ _ _ => a) a
 
 /-- the endpoint `.. * <- *` itself: one statement per template, carrying its attributes -/
